@@ -11,11 +11,13 @@ def run(chk):
                          "INVARIANT ThresholdExact\nINVARIANT Emit\nCHECK_DEADLOCK FALSE\n" % mx)
     r = vlib.tlc_mc(chk, "MC_Capacity.tla", cfg, workers=8)
     grid = vlib.behaviours_from(r["out"])
-    if len(grid) != (mx[0] + 1) * (mx[1] + 1) * (mx[2] + 1) ** 2:
+    full = (mx[0] + 1) * (mx[1] + 1) * (mx[2] + 1) ** 2
+    halves = (mx[0] * (mx[1] + 1) + (mx[0] + 1) * mx[1]) * (2 * (mx[2] + 1) - 1)
+    if len(grid) != full + halves:
         raise vlib.ToolError("grid incomplete: %d" % len(grid))
     progs = []
     for i, g in enumerate(grid):
-        key = "n%d-%d" % (g["n1"], g["n2"])
+        key = "n%d-%d%s" % (g["n1"], g["n2"], "" if g["st"] == "full" else "-" + g["st"])
         seed = 1000 * chk.seed + 17 * g["n1"] + g["n2"]
         # (A) the prover at capacity cp
         a = {"id": "capP-%s-cp%d-cv%d" % (key, g["p"]["cap"], g["vcap"]), "p": g["p"], "seed": seed, "expect_p": g["expect_p"], "vskip": True}
@@ -24,6 +26,8 @@ def run(chk):
         a["model_p"] = g["expect_p"]
         if g["vcap"] == 0:       # one prover run per (n1, n2, cp)
             progs.append(a)
+        if g["st"] != "full" and g["p"]["cap"] != 0:
+            continue             # half-open shapes: the verifier's axis at cp = 0 only (the proof is made at a sufficient capacity anyway)
         # (B) the verifier at capacity cv, against a proof made with sufficient prover capacity max(cp, pad)
         pc = max(g["p"]["cap"], g["pad"])
         # at or above the threshold the verifier "proceeds": the result is not the capacity error, and (below) does not depend on the capacity
@@ -100,10 +104,10 @@ def run(chk):
         vlib.session_traces(chk, curve, n, dict(vlib.flags(), CMP_K="1"), "threshold-session", seed_off=60)
     chk.finish(
         rule="TLC enumerates the full grid (n1, n2, capP, capV) in (0..%d)x(0..%d)x(0..%d)^2, checks ThresholdExact on the guards the protocol "
-             "model uses, and prints the expected result of prove and verify for every point; every point is replayed on secq256k1, zorro, "
+             "model uses, and prints the expected result of prove and verify for every point (and again with the last gate of the first / second phase a single allocation left half open: the threshold speaks of the gate count only); every point is replayed on secq256k1, zorro, "
              "curve25519 and toy31723 (error kind, no panic), and proofs made with the same seed at different sufficient capacities must be "
              "byte-identical. batch_verify (one and two members, both orders) is run at every shared capacity from 0 to one above the threshold of its largest member: the capacity error exactly below the threshold, no panic. Recorded sessions on toy31723 whose capacities result from table histories are validated against Library.tla (capacity error iff table capacity < padded size). distinct = distinct (curve, n1, n2, capP, capV)" % mx,
-        assumptions=["second-phase gates are created with allocate_multiplier inside one callback"],
+        assumptions=["gates are created with allocate_multiplier (second-phase gates inside one callback); in the half-open shapes the last gate of a phase is a single allocation left open"],
         extra={"exhaustive": True})
 
 
